@@ -31,19 +31,17 @@ Proof.
       (* len <= ... no bound on len here: use min *) lia. }
     destruct C1 as [D1 P1].
     assert (M1 : crem c1 <= crem (pi_flags s) - 1) by (unfold crem; rewrite D1, P1; lia).
+    assert (Hb1 : bytes (cdata c1)) by (rewrite D1; exact I2).
     destruct (bit a 8).
-    + unfold c_read. destruct (read_at 1 (cdata c1) (cpos c1)) eqn:R2.
-      * intros H. inversion H; subst.
-        assert (Hb1 : bytes (cdata c1)) by (rewrite D1; exact I2).
-        pose proof (read_at_value_range 1 _ _ a0 Hb1 ltac:(lia) ltac:(lia) R2) as V.
-        pose proof (crem_advance c1 1 ltac:(lia) ltac:(lia)). cbn [c_advance cpos cdata].
-        repeat split; try lia; [rewrite D1; exact I2|unfold sat_add; usz; lia|].
-        fold (c_advance 1 c1). lia.
-      * intros H. inversion H; subst. pose proof (crem_advance c1 1 ltac:(lia) ltac:(lia)). cbn [c_advance cpos cdata].
-        repeat split; try lia; [rewrite D1; exact I2|unfold sat_add; usz; lia|]. fold (c_advance 1 c1). lia.
-      * intros H. inversion H; subst. pose proof (crem_advance c1 1 ltac:(lia) ltac:(lia)). cbn [c_advance cpos cdata].
-        repeat split; try lia; [rewrite D1; exact I2|unfold sat_add; usz; lia|]. fold (c_advance 1 c1). lia.
-    + intros H. inversion H; subst. repeat split; try lia. rewrite D1; exact I2.
+    + unfold c_read.
+      assert (V : 0 <= match read_at 1 (cdata c1) (cpos c1) with Ok v => v | _ => 0 end <= 255).
+      { destruct (read_at 1 (cdata c1) (cpos c1)) eqn:R2; try lia.
+        pose proof (read_at_value_range 1 (cdata c1) (cpos c1) a0 Hb1 ltac:(lia) ltac:(lia) R2). lia. }
+      pose proof (crem_advance c1 1 ltac:(lia) ltac:(lia)) as CA.
+      assert (P2 : 0 <= cpos (c_advance 1 c1) <= USIZE_MAX) by (cbn [c_advance cpos]; unfold sat_add; usz; lia).
+      set (v := match read_at 1 (cdata c1) (cpos c1) with Ok v => v | _ => 0 end) in *.
+      intros H. inversion H; subst fc f rep. repeat split; try lia; auto.
+    + intros H. inversion H; subst fc f rep. repeat split; try lia; auto.
   - apply Z.eqb_neq in R0. intros H. inversion H; subst. repeat split; try lia; auto.
 Qed.
 
@@ -72,7 +70,7 @@ Proof.
   induction fuel; intros s I M.
   - exfalso. destruct I as (I1 & _). unfold pi_measure in M. pose proof (crem_nonneg (pi_flags s)). lia.
   - cbn [piter_run]. destruct (piter_next_ok s I) as [E|(x & y & on & s' & E & I' & M')]; rewrite E; cbn [rbind].
-    + exists []. split; [reflexivity|]. cbn. destruct I as (I1 & _). unfold pi_measure. pose proof (crem_nonneg (pi_flags s)). lia.
+    + exists []. split; [reflexivity|]. cbn [length]. destruct I as (I1 & _). unfold pi_measure. pose proof (crem_nonneg (pi_flags s)). lia.
     + destruct (IHfuel s' I' ltac:(lia)) as (l & R & L). rewrite R. cbn [rbind fst snd].
       exists (x :: y :: on :: l). split; [reflexivity|]. cbn [length]. lia.
 Qed.
@@ -135,7 +133,7 @@ Proof.
     + unfold c_read. destruct (read_at 1 (cdata c1) (cpos c1)) eqn:R2; cbn [rbind]; [|exact I|].
       2:{ exfalso. eapply read_at_total; eauto. }
       assert (Hb1 : bytes (cdata c1)) by (rewrite D1; exact Hb).
-      pose proof (read_at_value_range 1 _ _ a0 Hb1 ltac:(lia) ltac:(lia) R2) as V0.
+      pose proof (read_at_value_range 1 (cdata c1) (cpos c1) a0 Hb1 ltac:(lia) ltac:(lia) R2) as V0.
       apply G; try lia.
       * cbn [c_advance cdata]. exact D1.
       * cbn [c_advance cpos]. unfold sat_add. usz. lia.
@@ -149,7 +147,7 @@ Proof.
 Qed.
 
 Lemma piter_new_inv f x y : bytes f -> pi_inv (piter_new f x y).
-Proof. intros H. unfold pi_inv, piter_new. cbn. repeat split; try lia; auto. Qed.
+Proof. intros H. unfold pi_inv, piter_new, cursor0. cbn [pi_rep pi_flags cdata cpos]. usz. repeat split; try lia; auto. Qed.
 Lemma piter_new_measure f x y : pi_measure (piter_new f x y) = 256 * blen f.
 Proof. unfold pi_measure, piter_new, crem, cursor0. cbn [pi_rep pi_flags cdata cpos]. pose proof (blen_nonneg f). lia. Qed.
 
@@ -159,7 +157,7 @@ Lemma points_iter_ok last data : valid data -> (forall l, last = Some l -> 0 <= 
 Proof.
   intros [Hb Hv] Hl. pose proof (blen_nonneg data) as Hn.
   assert (Empty : exists it, Ok (piter_new [] [] []) = Ok it /\ pi_inv it /\ pi_measure it <= 256 * blen data).
-  { eexists. split; [reflexivity|]. split; [apply piter_new_inv; constructor|]. rewrite piter_new_measure. cbn. lia. }
+  { eexists. split; [reflexivity|]. split; [apply piter_new_inv; constructor|]. rewrite piter_new_measure. change (blen []) with 0. lia. }
   unfold points_iter. destruct last as [l|]; [|exact Empty]. specialize (Hl l eq_refl).
   destruct (65535 <? l + 1) eqn:E; [exact Empty|]. apply Z.ltb_ge in E.
   unfold resolve_coords_len.
@@ -226,3 +224,47 @@ Proof.
   - exfalso. eapply T2; reflexivity.
   - congruence.
 Qed.
+
+(* ================= property-level statements (used by C01/PropsH.v) ================= *)
+Lemma points_total_steps_lemma : forall last data, valid data -> (forall l, last = Some l -> 0 <= l <= 65535) ->
+  exists it, points_iter last data = Ok it /\
+    forall fuel, piter_run fuel it <> Panic /\
+      (256 * blen data < Z.of_nat fuel -> exists l, piter_run fuel it = Ok (l, true) /\ Z.of_nat (length l) <= 768 * blen data).
+Proof.
+  intros last data V Hl. destruct (points_iter_ok last data V Hl) as (it & E & I & M).
+  exists it. split; [exact E|]. intros fuel. split; [apply piter_run_total; exact I|].
+  intros F. destruct (piter_run_ok fuel it I ltac:(lia)) as (l & R & L). exists l. split; [exact R|lia].
+Qed.
+
+Lemma ppn_total_lemma : forall d, bytes d ->
+  ppn_split_off_front d <> Panic /\ 0 <= fst (ppn_count_bytes d) <= 32767 /\
+  forall fuel, ppn_run fuel (ppn_iter d) <> Panic /\
+    (65536 < Z.of_nat fuel -> exists l, ppn_run fuel (ppn_iter d) = Ok (l, true) /\
+       Z.of_nat (length l) <= (if fst (ppn_count_bytes d) =? 0 then 65536 else fst (ppn_count_bytes d))).
+Proof.
+  intros d Hb. split; [apply ppn_split_off_front_total; exact Hb|].
+  pose proof (ppn_count_bytes_range d Hb) as [R1 R2]. split; [exact R1|].
+  pose proof (ppn_iter_inv d Hb) as I. intros fuel. split; [apply ppn_run_total; exact I|]. intros F.
+  assert (M : pp_measure (ppn_iter d) = (if fst (ppn_count_bytes d) =? 0 then 65536 else fst (ppn_count_bytes d))).
+  { unfold pp_measure, ppn_iter. destruct (ppn_count_bytes d) as [np nb]. cbn [fst pp_count pp_last pp_seen].
+    destruct (np =? 0); lia. }
+  destruct (ppn_run_ok fuel (ppn_iter d) I) as (l & R & L).
+  - rewrite M. destruct (fst (ppn_count_bytes d) =? 0); lia.
+  - exists l. split; [exact R|]. rewrite <- M. exact L.
+Qed.
+
+Lemma packed_deltas_total_lemma : forall d, bytes d -> blen d <= 2 ^ 56 ->
+  exists count, count_all_deltas d = Ok count /\ 0 <= count <= 64 * (blen d + 1) /\
+    forall fuel, delta_run fuel (mkdi count 0 1 (cursor0 d)) <> Panic /\
+      (count < Z.of_nat fuel -> exists l, delta_run fuel (mkdi count 0 1 (cursor0 d)) = Ok (l, true) /\ Z.of_nat (length l) <= count).
+Proof.
+  intros d Hb Hl. destruct (count_all_deltas_ok d Hb Hl) as (count & E & B). exists count. split; [exact E|]. split; [exact B|].
+  assert (I : di_inv (mkdi count 0 1 (cursor0 d))) by (unfold di_inv; cbn; lia).
+  intros fuel. split; [apply delta_run_total; exact I|]. intros F.
+  destruct (delta_run_ok fuel _ I ltac:(cbn; lia)) as (l & R & L). exists l. split; [exact R|]. cbn in L. exact L.
+Qed.
+
+Lemma cmap12_iter_total_lemma : forall groups lim n, Z.of_nat (length groups) < USIZE_MAX ->
+  cmap12_take n groups lim (cmap12_iter_new groups lim) <> Panic /\
+  (forall e, cmap12_take n groups lim (cmap12_iter_new groups lim) <> Err e).
+Proof. intros groups lim n H. apply cmap12_take_total; [exact H|]. unfold ci_inv, cmap12_iter_new. cbn. lia. Qed.
